@@ -72,7 +72,7 @@ class Lock:
         self.fh.close()
 
 
-def prepare(tree_name="tree", patch=None, extra=None):
+def prepare(tree_name="tree", patch=None, extra=None, only_harness_names=None):
     """snapshot + overlay; returns (tree path, modules, lost)"""
     t = treemod.snapshot(tree_name)
     if patch:
@@ -81,6 +81,20 @@ def prepare(tree_name="tree", patch=None, extra=None):
         if r.returncode != 0:
             raise RuntimeError("mutant does not apply: " + r.stdout + r.stderr)
     mods = overlay.load_modules()
+    if only_harness_names is not None:
+        # inject only the modules that own the selected harnesses, plus the helper modules they
+        # refer to (transitively): an unrelated module can then never break this build
+        by_name = {m.name: m for m in mods}
+        need = set(m.name for m in mods if any(h.name in only_harness_names for h in m.harnesses))
+        changed = True
+        while changed:
+            changed = False
+            for n in list(need):
+                for other in by_name:
+                    if other not in need and ("verif_" + other) in by_name[n].text:
+                        need.add(other)
+                        changed = True
+        mods = [m for m in mods if m.name in need]
     lost = overlay.apply(t, mods, extra=extra)
     return t, mods, lost
 
